@@ -1018,7 +1018,21 @@ func (t *fnTrans) applyContract(fc *FuncContract, key string, sig *types.Signatu
 				}
 			}
 		}
-		if !fc.NoChan && !fc.Extern {
+		if fc.HasChans && !fc.NoChan && !fc.Extern {
+			// `chans a, b`: only the ghosts of the listed channels are unknown afterwards
+			al := t.chansAllowed(fc, env.with(pre))
+			for _, name := range sortedKeys(al) {
+				sv := t.vars[name]
+				if sv == nil {
+					continue
+				}
+				inner := strings.TrimSuffix(strings.TrimPrefix(sv.Sort, "(Array Int "), ")")
+				for _, ref := range al[name] {
+					nv := t.fresh(name+"_chs", inner)
+					t.set(name, fmt.Sprintf("(store %s %s %s)", t.get(t.cur, name), ref, nv))
+				}
+			}
+		} else if !fc.NoChan && !fc.Extern {
 			// a repository function may send / receive: channel counters are unknown afterwards
 			// unless its contract says `nochan` (or lists chanstore(T) and constrains them in ensures)
 			listed := map[string]bool{}
